@@ -12,7 +12,7 @@ EXTENDS Lex, Bags, TLC
 \* ---- trees
 Num(v)       == [k |-> "num",   v |-> v]
 Var(v)       == [k |-> "var",   v |-> v]
-Const(o)     == [k |-> "const", v |-> o]
+Const(o)     == [k |-> "const", c |-> o]      \* own field name: bags must not compare an id with a literal
 Un(o, a)     == [k |-> "un",  o |-> o, a |-> a]
 Bin(o, l, r) == [k |-> "bin", o |-> o, l |-> l, r |-> r]
 
